@@ -9,6 +9,7 @@
   (every path argument of every backend call, recorded by the reference backend) cover.
 -/
 import Absnfs.ServerPaths
+import Absnfs.ServerInvProcs
 import Gen.Facts
 open Absnfs Absnfs.Server
 
@@ -70,5 +71,21 @@ example : validateFilename [97, 46, 98] = 0 := by decide
 example : validateFilename [97, 47, 98] = 22 := by decide
 example : validateFilename [46, 46] = 22 := by decide
 example : targetHasDotDot [97, 47, 46, 46, 47, 98] = true := by decide
+
+/-- every request — any procedure, any argument bytes — keeps the handle table clean (the table part of the
+    cache invariant `CInv`, which every request preserves), so after any history on a new server every handle
+    resolves to an absolute, normalized path made of validated components -/
+theorem every_request_keeps_table_clean (s : St) (c : Ctx) (prog vers proc : Nat) (args : Bytes) (h : CInv s) :
+    HandlesClean (handle s c prog vers proc args).1 := (handle_cinv s c prog vers proc args h).hcl
+
+theorem table_clean_after_any_history (s0 : St) (rs : List Req) (h0 : CInv s0) : HandlesClean (runReqs s0 rs) :=
+  (runReqs_cinv s0 rs h0).hcl
+
+theorem every_handle_names_a_clean_path (s0 : St) (rs : List Req) (h0 : CInv s0) (hd : Nat) (n : Node)
+    (hn : nodeOf (runReqs s0 rs) hd = some n) : CleanPath n.path :=
+  nodeOf_clean (table_clean_after_any_history s0 rs h0) hn
+
+/-- MNT's path after path.Clean is a clean path whatever the client sent -/
+theorem mnt_clean_path (raw : Bytes) : CleanPath (cleanAbs raw) := cleanAbs_clean raw
 
 end Props.C07
